@@ -1,7 +1,6 @@
 """Scenarios: a script (history) executed symbolically on the generated code and natively on the real
 build, with the oracle expectations and the solver queries that decide a property for one program."""
 import time, random, itertools
-import z3
 from .sym import *
 from .values import *
 from . import lang as L
@@ -73,14 +72,26 @@ class Scenario:
         kind = self.kind
         if getattr(prog, "D", None):
             self.D = prog.D
-        rels = input_rels_all(prog, self.D) if self.all_inputs else input_rels_default(prog)
+        rels = input_rels_all(prog, self.D, getattr(self, 'input_cap', 72)) if self.all_inputs else input_rels_default(prog)
+        reset_manager()
+        if kind == "push":
+            # variable order: the A- and B-variable of the same tuple next to each other
+            relsB = [r for r in rels if not prog.relmap[r].lattice]
+            self.relsB = relsB
+            for rn in [r for r in prog.relmap if r in rels or r in relsB]:
+                r = prog.relmap[rn]
+                if r.lattice:
+                    continue
+                doms = [Dr.column_domain(t, self.D) for t in r.types]
+                for t in itertools.product(*doms):
+                    if rn in rels:
+                        BVar("inA_%s_%s" % (rn, rust_repr(t)))
+                    if rn in relsB:
+                        BVar("inB_%s_%s" % (rn, rust_repr(t)))
         A = Dr.Inputs(prog, self.D, rels, dup=self.dup, tag="A")
-        solver = new_solver()
-        solver.add(*A.constraints)
+        solver = None
         B = None
         ex = Dr.Exec(mod_ast, prog, K=self.K, clock=("free" if kind == "timeout" else "none"))
-        ex.ctx.solver = solver
-        ex.ctx.namer = Namer(solver)
         ex.default()
         A.fill(ex.obj, ex.ctx)
         obs = []
@@ -95,8 +106,7 @@ class Scenario:
         elif kind == "push":
             ex.run()
             self.obs_mid = ex.observed()
-            B = Dr.Inputs(prog, self.D, [r for r in prog.relmap if not prog.relmap[r].ds and not prog.relmap[r].lattice], dup=False, tag="B")
-            solver.add(*B.constraints)
+            B = Dr.Inputs(prog, self.D, self.relsB, dup=False, tag="B")
             B.fill(ex.obj, ex.ctx)
             ex.run()
             obs.append(("final", ex.observed()))
@@ -113,7 +123,7 @@ class Scenario:
         return ex
 
     def oracle(self, prog):
-        chk = Dr.solver_changed_check(lambda: self._fresh_solver())
+        chk = Dr.changed_check
         inputs = self.A.ref_inputs()
         if self.B is not None:
             for rn, d in self.B.ref_inputs().items():
@@ -124,13 +134,6 @@ class Scenario:
         self.ref, self.ref_stats = ref, stats
         return ref
 
-    def _fresh_solver(self):
-        s = new_solver()
-        s.add(*self.A.constraints)
-        if self.B is not None:
-            s.add(*self.B.constraints)
-        return s
-
     def input_mult2(self, rn, t):
         """condition under which the caller itself supplied tuple t twice"""
         c = False
@@ -138,7 +141,7 @@ class Scenario:
             c = self.A.vars2[(rn, t)]
         if self.B is not None and (rn, t) in self.B.vars:
             # the caller pushed a tuple that the relation already held after the first run
-            before = self.obs_mid.get(rn, {}).get(t, (False, False))[0]
+            before = self.obs_mid.get(rn, {}).get(t, (False, False, []))[0]
             c = Or_(c, And_(before, self.B.vars[(rn, t)]))
         return c
 
@@ -186,7 +189,7 @@ class Scenario:
                     code = obs[rn]
                     keys = set(code) | set(ref.rel[rn])
                     for t in keys:
-                        pres, twice = code.get(t, (False, False))
+                        pres, twice = code.get(t, (False, False, []))[:2]
                         orc = ref.rel[rn].get(t, False)
                         if sound_only:
                             diffs.append(And_(pres, Not_(orc)))
@@ -204,13 +207,15 @@ class Scenario:
             equiv("run1", self.obs[0][1])
             equiv("run2", self.obs[1][1])
         elif self.kind == "timeout":
-            for i, (label, ob) in enumerate(self.obs[:2]):
-                ret = ex.rets[i]
-                rt = OrL([c for c, v in ret if v is True])
-                rf = OrL([c for c, v in ret if v is False])
-                equiv(label + "_returned_true", ob, when=rt)
-                equiv(label + "_returned_false", ob, sound_only=True, when=rf)
-            equiv("final", self.obs[2][1])
+            # C14 speaks about the state left by an *interrupted* call and about resuming from it; what a
+            # further call does after a call that returned true is idempotence (C13) and is excluded here.
+            rt = [OrL([c for c, v in ret if v is True]) for ret in ex.rets]
+            rf = [OrL([c for c, v in ret if v is False]) for ret in ex.rets]
+            equiv("t1_returned_true", self.obs[0][1], when=rt[0])
+            equiv("t1_returned_false", self.obs[0][1], sound_only=True, when=rf[0])
+            equiv("t2_resumed_returned_true", self.obs[1][1], when=And_(rf[0], rt[1]))
+            equiv("t2_resumed_returned_false", self.obs[1][1], sound_only=True, when=And_(rf[0], rf[1]))
+            equiv("final_after_two_interruptions", self.obs[2][1], when=And_(rf[0], rf[1]))
         kinds = getattr(self, "kinds", None)
         if kinds is not None:
             qs = [q for q in qs if q.kind in kinds]
@@ -219,26 +224,42 @@ class Scenario:
         return qs
 
     # ---------------------------------------------------------------- concrete side
-    def concrete_dbs(self, model):
-        dbA = self.A.concrete(model)
-        dbB = self.B.concrete(model) if self.B is not None else None
+    def concrete_dbs(self, asg):
+        dbA = self.A.concrete(asg)
+        dbB = self.B.concrete(asg) if self.B is not None else None
         ks = []
         if self.kind == "timeout":
             # which deadline check fires in each call: index among the checks actually reached
             for call in range(2):
-                ks.append(self._fired_index(model, call))
+                ks.append(self._fired_index(asg, call))
         return dbA, dbB, ks
 
-    def _fired_index(self, model, call):
+    def _fired_index(self, asg, call):
         ctx = self.ex.ctx
         dl = [d for d in ctx.deadline_info if d[2] == call]
         n = 0
         for dvar, reach, _ in dl:
-            if z3.is_true(model.eval(z(reach), model_completion=True)):
+            if eval_b(reach, asg):
                 n += 1
-                if z3.is_true(model.eval(dvar, model_completion=True)):
+                if eval_b(dvar, asg):
                     return n
         return 0
+
+    def pin_deadlines(self, asg, ks):
+        """extend an input assignment so that the k-th *reached* deadline check of each call fires"""
+        ctx = self.ex.ctx
+        for dvar, _, _ in ctx.deadline_info:
+            asg[M_.names[M_.var[dvar.i]]] = False
+        for call in range(2):
+            n = 0
+            for dvar, reach, cidx in ctx.deadline_info:
+                if cidx != call:
+                    continue
+                if eval_b(reach, asg):
+                    n += 1
+                    if n == ks[call]:
+                        asg[M_.names[M_.var[dvar.i]]] = True
+        return asg
 
     def script_lines(self, prog, dbA, dbB, ks):
         lines = []
